@@ -757,7 +757,9 @@ fn case_borrowed(out: &mut CaseOut, tier: &str, seed: u64, j: u64) {
     if name == "C15" {
         // a call that panics has not returned: on the unchanged tree no damaged image makes any
         // call panic (C15 itself counts a panic as detection, because nothing wrong was served)
-        let panicked: u64 = inner.obs.iter().filter(|(k, _)| k.ends_with(".detected-by-panic")).map(|(_, n)| *n).sum();
+        let (footer_images, footer_panics) = super::c15::footer_sweep(seed, j);
+        out.add("damaged_table_footers_opened_for_liveness", footer_images);
+        let panicked: u64 = footer_panics + inner.obs.iter().filter(|(k, _)| k.ends_with(".detected-by-panic")).map(|(_, n)| *n).sum::<u64>();
         if panicked > 0 {
             let panics = watch::peek_panics();
             let loc = panics.first().map(|p| watch::short_location(&p.location)).unwrap_or_default();
